@@ -7,7 +7,7 @@ CONSTANTS
   AllowRecover = FALSE
   FingerprintGate = TRUE
   FPVouchesForVisible = TRUE
-  CleanStagingOnNewBase = FALSE
+  CleanStagingOnNewBase = TRUE
   FullAfterLoad = TRUE
   RecoverDiscardsFile = TRUE
   ClearFlagOnlyIfCovers = TRUE
